@@ -115,6 +115,7 @@ class Monitor {
         // event queue occupancy window
         uint64_t accepted = 0, popped_certain = 0, popped_possible = 0;
         int last_finished_ev_cmd = -1;
+        int last_finished_ev_type = -2; // -2: nothing can be held by the event machine
         bool in_list = false;
         bool last_svc_ok = false;
         bool stimulus_since_ok = true;
